@@ -921,6 +921,7 @@ def check(ctx):
     # ---- R6 forwarding -----------------------------------------------------------
     forwarding(rep, model)
     signatures(rep, model)
+    sampling(rep, model, thorough)
     return rep
 
 
@@ -1330,3 +1331,279 @@ def signatures(rep, model):
         else:
             rep.holds('R7', '_func_out_type:' + desc, repr(want))
     rep.floor('R7', 'signature classes', n, 22)
+
+
+# ---------------------------------------------------------------------------
+# R4: sampling of callables (sampling_function / _make_dual_use_func /
+# point_collocation) on small meshes and point arrays with symbolic
+# coordinates; NumPy's shape semantics are those of NumPy (namodel)
+# ---------------------------------------------------------------------------
+from ..namodel import (NA, NAHooks, NAInterp, DT, symbols, filled, na_of,
+                       as_dt)
+
+IU = Rat.var('I')
+
+
+class UserFunc(object):
+    """A user callable with a given signature style computing a known
+    function of the coordinates."""
+
+    def __init__(self, name, style, formula, ndim):
+        self.name, self.style, self.formula, self.ndim = \
+            name, style, formula, ndim
+        self.calls = 0
+
+
+class SamplH(NAHooks):
+    def __init__(self):
+        self.funcs = {}
+
+    def user(self, I, uf):
+        H = self
+
+        def call(x, *a, **k):
+            uf.calls += 1
+            out = k.pop('out', a[0] if a else None)
+            if a[1:] or (a and 'out' in k):
+                raise PyRaise('TypeError')
+            if uf.style == 'oop' and out is not None:
+                raise PyRaise('TypeError')
+            if uf.style == 'ip' and out is None:
+                raise PyRaise('TypeError')
+            par = k.pop('c', None)
+            if k:
+                raise PyRaise('TypeError')
+            res = uf.formula(I, H, x, par)
+            if out is None:
+                return res
+            H.store(I, out, slice(None), res)
+            return None if uf.style == 'ip' else out
+        b = Builtin('user:' + uf.name, call)
+        self.funcs[id(b)] = uf
+        b.uf = uf
+        return b
+
+    def np_func(self, I, name):
+        if name == 'vectorize':
+            H = self
+
+            def vectorize(f, *a, **k):
+                def vcall(*arrs, **kw):
+                    import numpy as _np
+                    ns = [na_of(x) for x in arrs]
+                    g = lambda *pt: I.call(f, list(pt), dict(kw))
+                    try:
+                        res = _np.frompyfunc(g, len(ns), 1)(
+                            *[n.a for n in ns])
+                    except ValueError:
+                        raise PyRaise('ValueError')
+                    return NA(res, DT('float64')) if isinstance(
+                        res, _np.ndarray) else res
+                return Builtin('vectorized', vcall)
+            return vectorize
+        return NAHooks.np_func(self, I, name)
+
+    def on_name(self, interp, name):
+        if name == 'partial':
+            def partial(f, *pre, **pk):
+                def call(*a, **k):
+                    kk = dict(pk)
+                    kk.update(k)
+                    return interp.call(f, list(pre) + list(a), kk)
+                return Builtin('partial', call)
+            return Builtin('partial', partial)
+        if name == 'writable_array':
+            return Builtin('writable_array', lambda a, **k: a)
+        if name == 'callable':
+            return Builtin('callable', lambda f: isinstance(
+                f, (Builtin, Func, Inst)))
+        return NotImplemented
+
+    def on_call(self, interp, f, args, kwargs, node):
+        if isinstance(f, Func) and f.name == '_func_out_type':
+            uf = getattr(args[0], 'uf', None)
+            if isinstance(args[0], Inst) and args[0].ci.name == \
+                    '_NumpyVectorizeWrapper':
+                return (True, True)     # __call__(self, x, out=None, **kw)
+            if uf is None:
+                raise Undecided('_func_out_type of %r' % (args[0],))
+            return {'oop': (False, False), 'ip': (True, False),
+                    'dual': (True, True)}[uf.style]
+        if isinstance(f, Func) and f.name in ('is_real_dtype',
+                                              'is_real_floating_dtype'):
+            return as_dt(args[0]).d.kind in 'biuf'
+        if isinstance(f, Func) and f.name == 'dtype_repr':
+            return 'dtype'
+        return NotImplemented
+
+    def on_getattr(self, interp, obj, name):
+        if isinstance(obj, Rec) and name in obj.attrs:
+            return obj.attrs[name]
+        if isinstance(obj, Rec):
+            raise PyRaise('AttributeError')
+        return NAHooks.on_getattr(self, interp, obj, name)
+
+
+def point_formula(fname):
+    """The same functions written for a single point (array of the
+    coordinates), as handed to the vectorize decorator."""
+    def f(I, H, x, c):
+        a = x.a[0]
+        b = x.a[1] if x.a.shape[0] > 1 else None
+        return to_rat(_expect(fname, to_rat(a), None if b is None
+                              else to_rat(b), c))
+    return f
+
+
+def _coord(x, i):
+    return x[i] if isinstance(x, tuple) else NA(x.a[i], x.dt)
+
+
+def _formulas():
+    def full(I, H, x, c):
+        return H.binop_na(I, ast.Add, _coord(x, 0), H.binop_na(
+            I, ast.Mult, 2, _coord(x, 1)))
+
+    def partial0(I, H, x, c):
+        return H.binop_na(I, ast.Mult, 3, _coord(x, 0))
+
+    def const(I, H, x, c):
+        return 5
+
+    def param(I, H, x, c):
+        return H.binop_na(I, ast.Add, _coord(x, 1), 0 if c is None else c)
+
+    def cplx(I, H, x, c):
+        r = H.binop_na(I, ast.Add, _coord(x, 0), H.binop_na(
+            I, ast.Mult, IU, _coord(x, 1)))
+        r.dt = DT('complex128')
+        return r
+
+    def one_d(I, H, x, c):
+        # 1-d functions are written on x itself (`x ** 2`)
+        if isinstance(x, tuple):
+            raise PyRaise('TypeError')
+        return H.binop_na(I, ast.Mult, x, x)
+    def one_d_idx(I, H, x, c):
+        # ... or on x[0] (works for mesh grids and (1, n) point arrays)
+        x0 = _coord(x, 0)
+        return H.binop_na(I, ast.Mult, x0, x0)
+    return {'full': full, 'partial0': partial0, 'const': const,
+            'param': param, 'cplx': cplx, 'one_d': one_d,
+            'one_d_idx': one_d_idx}
+
+
+def _expect(name, a, b, c=None):
+    return {'full': lambda: a + 2 * b, 'partial0': lambda: 3 * a,
+            'const': lambda: Rat.const(5),
+            'param': lambda: b + (0 if c is None else c),
+            'cplx': lambda: a + IU * b, 'one_d': lambda: a * a,
+            'one_d_idx': lambda: a * a}[name]()
+
+
+def sample_once(model, fname, style, conv, with_out, kw=None):
+    """Returns (got NA | scalar, want dict index->Rat, shape)."""
+    import numpy as _np
+    F = _formulas()
+    ndim = 1 if fname.startswith('one_d') else 2
+    dtn = 'complex128' if fname == 'cplx' else 'float64'
+    H = SamplH()
+    I = NAInterp(model, {}, H)
+    if style == 'vectorized':
+        uf = UserFunc(fname, 'oop', point_formula(fname), ndim)
+        f = I.instantiate(model.get('_NumpyVectorizeWrapper'),
+                          [H.user(I, uf)], {})
+    else:
+        uf = UserFunc(fname, style, F[fname], ndim)
+        f = H.user(I, uf)
+    dom = Rec('IntervalProd', ndim=ndim,
+              contains_all=Builtin('contains_all', lambda x: True))
+    n = 3
+    A = [Rat.var('a%d' % i) for i in range(n)]
+    B = [Rat.var('b%d' % i) for i in range(n)]
+    if conv == 'mesh':
+        if ndim == 2:
+            x = (NA(_np.array(A[:2], dtype=object).reshape(2, 1)),
+                 NA(_np.array(B[:2], dtype=object).reshape(1, 2)))
+            shape = (2, 2)
+            want = {(i, j): _expect(fname, A[i], B[j],
+                                    (kw or {}).get('c'))
+                    for i in range(2) for j in range(2)}
+        else:
+            x = (NA(_np.array(A, dtype=object)),)
+            shape = (n,)
+            want = {(i,): _expect(fname, A[i], None) for i in range(n)}
+    else:
+        if ndim == 2:
+            x = NA(_np.array([A, B], dtype=object))
+            want = {(i,): _expect(fname, A[i], B[i], (kw or {}).get('c'))
+                    for i in range(n)}
+        else:
+            x = NA(_np.array(A, dtype=object))
+            if fname == 'one_d_idx':
+                x = NA(x.a.reshape(1, n))
+            want = {(i,): _expect(fname, A[i], None) for i in range(n)}
+        shape = (n,)
+    sf = model.ctx.func(DU, 'sampling_function')
+    pc = model.ctx.func(DU, 'point_collocation')
+    env = I.env_of(DU)
+    wrapped = I.call_func(Func(sf, env, None), [f, dom],
+                          {'out_dtype': DT(dtn)})
+    kwargs = dict(kw or {})
+    out = None
+    if with_out:
+        out = filled(shape, Rat.var('garbage'), dtn)
+        kwargs['out'] = out
+    res = I.call_func(Func(pc, env, None), [wrapped, x], kwargs)
+    return res, want, shape, out, uf
+
+
+def sampling(rep, model, thorough):
+    n = 0
+    for fname in ('full', 'partial0', 'const', 'param', 'cplx', 'one_d',
+                  'one_d_idx'):
+        for style in ('oop', 'ip', 'dual', 'vectorized'):
+            for conv in ('mesh', 'array'):
+                for with_out in (False, True):
+                    kw = {'c': Rat.var('c')} if fname == 'param' else None
+                    cons = 'sampling[%s,%s,%s%s]' % (
+                        fname, style, conv, ',out' if with_out else '')
+                    n += 1
+                    try:
+                        res, want, shape, out, uf = sample_once(
+                            model, fname, style, conv, with_out, kw)
+                    except PyRaise as e:
+                        rep.violation('R4', cons, 'raises %s at `%s`' % (
+                            e.name, ast.unparse(e.node)[:70]
+                            if e.node is not None else '?'), DU,
+                            getattr(e.node, 'lineno', None))
+                        continue
+                    except Undecided as e:
+                        rep.undecided('R4', cons, str(e), DU)
+                        continue
+                    probs = []
+                    if with_out and res is not out:
+                        probs.append('does not return the given `out`')
+                    if not isinstance(res, NA):
+                        probs.append('returns %r' % (res,))
+                    elif res.a.shape != shape:
+                        probs.append('result shape %r, expected %r'
+                                     % (res.a.shape, shape))
+                    else:
+                        for idx, w in want.items():
+                            g = res.a[idx]
+                            if g is None or not (to_rat(g) - w).is_zero():
+                                probs.append('entry %r is %r, the function '
+                                             'value there is %r'
+                                             % (idx, g, w))
+                                break
+                        wdt = 'complex128' if fname == 'cplx' else 'float64'
+                        if res.dt != DT(wdt):
+                            probs.append('dtype %r, expected %s'
+                                         % (res.dt, wdt))
+                    if probs:
+                        rep.violation('R4', cons, '; '.join(probs), DU)
+                    else:
+                        rep.holds('R4', cons, 'function values at the '
+                                  'points, shape %r' % (shape,))
+    rep.floor('R4', 'sampling configurations', n, 112)
